@@ -592,23 +592,80 @@ where
 pub mod iter {
     use super::run_siblings;
 
-    /// The only parallel iterator of the stand-in: an eager list of items.
+    /// The only parallel iterator of the stand-in: an eager list of items plus
+    /// the splitting hints real rayon honours.
     pub struct ParIter<I> {
         pub(crate) items: Vec<I>,
+        pub(crate) min_len: usize,
+    }
+
+    /// Sequential leaves real rayon would form for `len` items with a minimum
+    /// leaf length: recursive halving while both halves stay >= min_len.
+    fn leaves(len: usize, min_len: usize, out: &mut Vec<usize>) {
+        let min_len = min_len.max(1);
+        if len / 2 >= min_len && len >= 2 {
+            let mid = len / 2;
+            leaves(mid, min_len, out);
+            leaves(len - mid, min_len, out);
+        } else if len > 0 {
+            out.push(len);
+        }
     }
 
     impl<I: Send> ParIter<I> {
+        pub(crate) fn new(items: Vec<I>) -> Self {
+            ParIter { items, min_len: 1 }
+        }
+
         pub fn for_each<F>(self, op: F)
         where
             F: Fn(I) + Sync + Send,
         {
-            run_siblings(self.items, &op);
+            if self.min_len <= 1 {
+                run_siblings(self.items, &op);
+            } else {
+                // one task per sequential leaf; a leaf runs its items in order
+                let mut sizes = Vec::new();
+                leaves(self.items.len(), self.min_len, &mut sizes);
+                let mut it = self.items.into_iter();
+                let chunks: Vec<Vec<I>> = sizes.into_iter().map(|n| it.by_ref().take(n).collect()).collect();
+                run_siblings(chunks, &|chunk: Vec<I>| {
+                    for x in chunk {
+                        op(x);
+                    }
+                });
+            }
+        }
+
+        pub fn for_each_with<T, F>(self, init: T, op: F)
+        where
+            T: Send + Clone + Sync,
+            F: Fn(&mut T, I) + Sync + Send,
+        {
+            self.for_each(move |x| {
+                let mut t = init.clone();
+                op(&mut t, x)
+            })
         }
 
         pub fn enumerate(self) -> ParIter<(usize, I)> {
-            ParIter {
-                items: self.items.into_iter().enumerate().collect(),
-            }
+            ParIter { items: self.items.into_iter().enumerate().collect(), min_len: self.min_len }
+        }
+
+        pub fn with_min_len(mut self, min: usize) -> Self {
+            self.min_len = self.min_len.max(min);
+            self
+        }
+
+        pub fn with_max_len(self, _max: usize) -> Self {
+            self
+        }
+
+        pub fn map<U, F>(self, f: F) -> Map<I, F>
+        where
+            F: Fn(I) -> U + Sync + Send,
+        {
+            Map { base: self, f }
         }
 
         pub fn len(&self) -> usize {
@@ -620,10 +677,42 @@ pub mod iter {
         }
     }
 
+    /// `par_iter().map(f)`: `f` runs inside the item's task.
+    pub struct Map<I, F> {
+        base: ParIter<I>,
+        f: F,
+    }
+
+    impl<I: Send, U, F: Fn(I) -> U + Sync + Send> Map<I, F> {
+        pub fn for_each<G>(self, g: G)
+        where
+            G: Fn(U) + Sync + Send,
+        {
+            let f = self.f;
+            self.base.for_each(move |x| g(f(x)))
+        }
+
+        pub fn collect<C: FromIterator<U>>(self) -> C
+        where
+            U: Send,
+        {
+            let n = self.base.items.len();
+            let slots: Vec<std::sync::Mutex<Option<U>>> = (0..n).map(|_| std::sync::Mutex::new(None)).collect();
+            let f = self.f;
+            let sl = &slots;
+            self.base.enumerate().for_each(move |(i, x)| {
+                *sl[i].lock().unwrap() = Some(f(x));
+            });
+            slots.into_iter().map(|m| m.into_inner().unwrap().expect("shim: item did not run")).collect()
+        }
+    }
+
     /// Marker trait so that `use rayon::prelude::*` keeps importing a name
     /// called `ParallelIterator`.
     pub trait ParallelIterator {}
     impl<I> ParallelIterator for ParIter<I> {}
+    pub trait IndexedParallelIterator {}
+    impl<I> IndexedParallelIterator for ParIter<I> {}
 
     pub trait IntoParallelRefMutIterator<'data> {
         type Item: Send + 'data;
@@ -633,18 +722,14 @@ pub mod iter {
     impl<'data, T: Send + 'data> IntoParallelRefMutIterator<'data> for [T] {
         type Item = &'data mut T;
         fn par_iter_mut(&'data mut self) -> ParIter<&'data mut T> {
-            ParIter {
-                items: self.iter_mut().collect(),
-            }
+            ParIter::new(self.iter_mut().collect())
         }
     }
 
     impl<'data, T: Send + 'data> IntoParallelRefMutIterator<'data> for Vec<T> {
         type Item = &'data mut T;
         fn par_iter_mut(&'data mut self) -> ParIter<&'data mut T> {
-            ParIter {
-                items: self.iter_mut().collect(),
-            }
+            ParIter::new(self.iter_mut().collect())
         }
     }
 
@@ -656,18 +741,14 @@ pub mod iter {
     impl<'data, T: Sync + 'data> IntoParallelRefIterator<'data> for [T] {
         type Item = &'data T;
         fn par_iter(&'data self) -> ParIter<&'data T> {
-            ParIter {
-                items: self.iter().collect(),
-            }
+            ParIter::new(self.iter().collect())
         }
     }
 
     impl<'data, T: Sync + 'data> IntoParallelRefIterator<'data> for Vec<T> {
         type Item = &'data T;
         fn par_iter(&'data self) -> ParIter<&'data T> {
-            ParIter {
-                items: self.iter().collect(),
-            }
+            ParIter::new(self.iter().collect())
         }
     }
 
@@ -679,24 +760,86 @@ pub mod iter {
     impl<T: Send> IntoParallelIterator for Vec<T> {
         type Item = T;
         fn into_par_iter(self) -> ParIter<T> {
-            ParIter { items: self }
+            ParIter::new(self)
         }
     }
 
     impl IntoParallelIterator for std::ops::Range<usize> {
         type Item = usize;
         fn into_par_iter(self) -> ParIter<usize> {
-            ParIter {
-                items: self.collect(),
-            }
+            ParIter::new(self.collect())
+        }
+    }
+
+    impl<'data, T: Send + 'data> IntoParallelIterator for &'data mut [T] {
+        type Item = &'data mut T;
+        fn into_par_iter(self) -> ParIter<&'data mut T> {
+            ParIter::new(self.iter_mut().collect())
+        }
+    }
+
+    impl<'data, T: Send + 'data> IntoParallelIterator for &'data mut Vec<T> {
+        type Item = &'data mut T;
+        fn into_par_iter(self) -> ParIter<&'data mut T> {
+            ParIter::new(self.iter_mut().collect())
+        }
+    }
+}
+
+pub mod slice {
+    use crate::iter::ParIter;
+
+    pub trait ParallelSliceMut<T: Send> {
+        fn as_parallel_slice_mut(&mut self) -> &mut [T];
+
+        fn par_chunks_mut(&mut self, chunk_size: usize) -> ParIter<&mut [T]> {
+            assert!(chunk_size != 0, "chunk_size must not be zero");
+            ParIter::new(self.as_parallel_slice_mut().chunks_mut(chunk_size).collect())
+        }
+
+        fn par_chunks_exact_mut(&mut self, chunk_size: usize) -> ParIter<&mut [T]> {
+            assert!(chunk_size != 0, "chunk_size must not be zero");
+            ParIter::new(self.as_parallel_slice_mut().chunks_exact_mut(chunk_size).collect())
+        }
+
+        fn par_rchunks_mut(&mut self, chunk_size: usize) -> ParIter<&mut [T]> {
+            assert!(chunk_size != 0, "chunk_size must not be zero");
+            ParIter::new(self.as_parallel_slice_mut().rchunks_mut(chunk_size).collect())
+        }
+    }
+
+    impl<T: Send> ParallelSliceMut<T> for [T] {
+        fn as_parallel_slice_mut(&mut self) -> &mut [T] {
+            self
+        }
+    }
+
+    pub trait ParallelSlice<T: Sync> {
+        fn as_parallel_slice(&self) -> &[T];
+
+        fn par_chunks(&self, chunk_size: usize) -> ParIter<&[T]> {
+            assert!(chunk_size != 0, "chunk_size must not be zero");
+            ParIter::new(self.as_parallel_slice().chunks(chunk_size).collect())
+        }
+
+        fn par_chunks_exact(&self, chunk_size: usize) -> ParIter<&[T]> {
+            assert!(chunk_size != 0, "chunk_size must not be zero");
+            ParIter::new(self.as_parallel_slice().chunks_exact(chunk_size).collect())
+        }
+    }
+
+    impl<T: Sync> ParallelSlice<T> for [T] {
+        fn as_parallel_slice(&self) -> &[T] {
+            self
         }
     }
 }
 
 pub mod prelude {
     pub use crate::iter::{
-        IntoParallelIterator, IntoParallelRefIterator, IntoParallelRefMutIterator,
-        ParallelIterator,
+        IndexedParallelIterator, IntoParallelIterator, IntoParallelRefIterator,
+        IntoParallelRefMutIterator, ParallelIterator,
     };
+    pub use crate::slice::{ParallelSlice, ParallelSliceMut};
 }
 
